@@ -10,6 +10,7 @@ import (
 	"testing"
 	"time"
 
+	cmtproto "github.com/cometbft/cometbft/proto/tendermint/types"
 	ethcrypto "github.com/ethereum/go-ethereum/crypto"
 	"github.com/tellor-io/layer/app"
 )
@@ -372,14 +373,22 @@ func runProposalHist(t *testing.T, in []string) string {
 				return honest
 			}
 		}
-		if tamper != "-" {
-			opts.TamperInj = func(inj []byte) []byte {
-				out, ch := tamperInjected(r, tamper, inj)
-				changed = ch
-				return out
+		// the commit and the state the proposal is derived from (for the model's derivation)
+		dvotes := describeCommit(c)
+		var honestInj []byte
+		opts.TamperInj = func(inj []byte) []byte {
+			honestInj = append([]byte{}, inj...)
+			if tamper == "-" {
+				return inj
 			}
+			out, ch := tamperInjected(r, tamper, inj)
+			changed = ch
+			return out
 		}
 		br := c.NextBlock(opts)
+		if honestInj != nil {
+			h.Out = append(h.Out, fmt.Sprintf("D votes=%s %s", dvotes, describeInjected(honestInj)))
+		}
 		ch := 0
 		if changed {
 			ch = 1
@@ -455,4 +464,105 @@ func genProposalHist(r *Rng, i int, tier string) []string {
 	add("blk 1000")
 	add("blk 1000")
 	return []string{fmt.Sprint(nv), strings.Join(steps, ";")}
+}
+
+
+// describeCommit renders, for every vote of the commit the next proposal is built from, what the derivation reads:
+//   flag(c|a):operator|-:hasEvm(0|1):ext  with ext = "-" (not JSON of the expected shape) or
+//   sigA/sigB/rec/valsetSig/valsetTs/atts ; rec = address recovered from the two initial signatures ("-" = error, "!" = not
+//   attempted: a signature shorter than 64 bytes); atts = snapshot.attestation+… (hex)
+func describeCommit(c *Chain) string {
+	ctx := c.Ctx()
+	hx := func(b []byte) string {
+		if b == nil {
+			return "nil"
+		}
+		return "x" + hex.EncodeToString(b)
+	}
+	var vs []string
+	for _, v := range c.lastExt {
+		flag := "a"
+		if v.BlockIdFlag == cmtproto.BlockIDFlagCommit {
+			flag = "c"
+		}
+		op, has := "-", "0"
+		if val, err := c.App.StakingKeeper.GetValidatorByConsAddr(ctx, v.Validator.Address); err == nil {
+			op = val.OperatorAddress
+			if _, err := c.App.BridgeKeeper.GetEVMAddressByOperator(ctx, op); err == nil {
+				has = "1"
+			}
+		}
+		ext := "-"
+		var ve app.BridgeVoteExtension
+		if json.Unmarshal(v.VoteExtension, &ve) == nil {
+			rec := "!"
+			a, b := ve.InitialSignature.SignatureA, ve.InitialSignature.SignatureB
+			if len(a) >= 64 && len(b) >= 64 {
+				if addr, err := c.App.BridgeKeeper.EVMAddressFromSignatures(ctx, a, b); err == nil {
+					rec = addr.Hex()
+				} else {
+					rec = "-"
+				}
+			}
+			var as []string
+			for _, at := range ve.OracleAttestations {
+				as = append(as, hx(at.Snapshot)+"."+hx(at.Attestation))
+			}
+			ext = fmt.Sprintf("%s/%s/%s/%s/%d/%s", hx(a), hx(b), rec, hx(ve.ValsetSignature.Signature), ve.ValsetSignature.Timestamp, strings.Join(as, "+"))
+		}
+		vs = append(vs, fmt.Sprintf("%s:%s:%s:%s", flag, op, has, ext))
+	}
+	return strings.Join(vs, ",")
+}
+
+// describeInjected renders the lists of the injected transaction, keeping nil (null) and empty ([]) apart
+func describeInjected(inj []byte) string {
+	var top map[string]json.RawMessage
+	if json.Unmarshal(inj, &top) != nil {
+		return "inj=unparsable"
+	}
+	list := func(section, field, kind string) string {
+		var sec map[string]json.RawMessage
+		if json.Unmarshal(top[section], &sec) != nil {
+			return "?"
+		}
+		raw := strings.TrimSpace(string(sec[field]))
+		if raw == "null" || raw == "" {
+			return "null"
+		}
+		var items []string
+		switch kind {
+		case "str":
+			var l []string
+			if json.Unmarshal(sec[field], &l) != nil {
+				return "?"
+			}
+			items = l
+		case "int":
+			var l []int64
+			if json.Unmarshal(sec[field], &l) != nil {
+				return "?"
+			}
+			for _, x := range l {
+				items = append(items, fmt.Sprint(x))
+			}
+		case "bytes":
+			var l [][]byte
+			if json.Unmarshal(sec[field], &l) != nil {
+				return "?"
+			}
+			for _, x := range l {
+				if x == nil {
+					items = append(items, "nil")
+				} else {
+					items = append(items, "x"+hex.EncodeToString(x))
+				}
+			}
+		}
+		return "[" + strings.Join(items, ";") + "]"
+	}
+	return fmt.Sprintf("iops=%s ievms=%s vops=%s vtss=%s vsigs=%s aops=%s aatts=%s asnaps=%s",
+		list("op_and_evm_addrs", "operator_addresses", "str"), list("op_and_evm_addrs", "evm_addresses", "str"),
+		list("valset_sigs", "operator_addresses", "str"), list("valset_sigs", "timestamps", "int"), list("valset_sigs", "signatures", "str"),
+		list("oracle_attestations", "operator_addresses", "str"), list("oracle_attestations", "attestations", "bytes"), list("oracle_attestations", "snapshots", "bytes"))
 }
